@@ -71,6 +71,11 @@ def layer_machine(events, spec, plan=None, expect_clean_end=True,
     def V(rule, **d):
         viol.append({'rule': rule, 'mech': 'layer-' + rule, 'detail': d})
 
+    # names that several layer objects share (twin base layers): such
+    # layers always have setUp / tearDown hooks, i.e. facts under the
+    # world's own keys - what the formatter says about them names nobody
+    shared = {ls['pyname'] for ls in spec.get('layers', [])
+              if ls.get('pyname')}
     for pid, evs in split_pids(events).items():
         S = set()
         order = []            # set-up order, for reporting
@@ -83,6 +88,9 @@ def layer_machine(events, spec, plan=None, expect_clean_end=True,
             k = e['k']
             if k == 'claim.start_set_up':
                 L = model.short(e.get('arg') or '')
+                if L in shared:
+                    pending_su = None
+                    continue
                 pending_su = L
                 if not model.has_hook(L, 'setUp'):
                     # no fact will follow: judge the claim itself
@@ -116,6 +124,9 @@ def layer_machine(events, spec, plan=None, expect_clean_end=True,
                     stats['setups'] += 1
             elif k == 'claim.start_tear_down':
                 L = model.short(e.get('arg') or '')
+                if L in shared:
+                    pending_td = None
+                    continue
                 pending_td = L
                 if not model.has_hook(L, 'tearDown'):
                     if L not in S:
